@@ -223,12 +223,31 @@ def run(ctx):
         if n.kind == "stmt" and isinstance(n.ast, ast.Assign) and src(n.ast.targets[0]).startswith("job_options["):
             key = src(n.ast.targets[0])
             facts = facts_at(cfg, n)
+            # conditions under which the option is imposed, beyond those under which the job is created at all
+            extra = facts - (facts_at(cfg, cfg.node_of(sites[0])) if sites else set())
             if "cache_scope" in key:
                 ok = ("self._use_cache", False) in facts and src(n.ast.value) == "CacheScope.CSE"
                 r2.check(ok, f"{m.rel}:Scheduler._evaluate_apply:{key}", "the cache downgrade is not `CSE when the run disables caching`", m.rel, n.lineno)
+                narrowed = sorted(f"{'' if t_ else 'not '}{f}" for f, t_ in extra if (f, t_) != ("self._use_cache", False))
+                r2.check(
+                    not narrowed,
+                    f"{m.rel}:Scheduler._evaluate_apply:{key}:unconditional",
+                    f"the scheduler-imposed cache_scope is applied only when also {narrowed}: for the other jobs a definition-time or call-time option (e.g. .options(cache=True) on a "
+                    "cache_scope=NONE task) beats run(cache=False), and the job is served from the backend cache although the scheduler disabled caching",
+                    m.rel,
+                    n.lineno,
+                )
             elif "prov" in key:
                 ok = ("parent_job.recording_provenance()", False) in facts and src(n.ast.value) == "False"
                 r2.check(ok, f"{m.rel}:Scheduler._evaluate_apply:{key}", "provenance is not switched off exactly when the parent does not record it", m.rel, n.lineno)
+                narrowed = sorted(f"{'' if t_ else 'not '}{f}" for f, t_ in extra if (f, t_) not in (("parent_job.recording_provenance()", False), ("parent_job", True)))
+                r2.check(
+                    not narrowed,
+                    f"{m.rel}:Scheduler._evaluate_apply:{key}:unconditional",
+                    f"the scheduler-imposed prov=False is applied only when also {narrowed}: other jobs under a parent that records no provenance would record their own",
+                    m.rel,
+                    n.lineno,
+                )
             else:
                 r2.violation(f"{m.rel}:Scheduler._evaluate_apply:{key}", f"unexpected scheduler-imposed option {key}", m.rel, n.lineno)
     ot = m.funcs.get("Scheduler._evaluate_apply.options_then")
